@@ -7,6 +7,7 @@ import (
 	"errors"
 	"fmt"
 	"reflect"
+	"sort"
 	"strings"
 
 	"github.com/samsarahq/go/oops"
@@ -665,8 +666,43 @@ func (db *DB) UpdateRow(ctx context.Context, row interface{}) error {
 		return err
 	}
 
+	// The row is found by its primary key alone, which also finds a row that
+	// belongs to another shard: confine the statement to the limits as well.
+	if db.shardLimit != nil {
+		addLimitToWhere(query.Where, db.shardLimit)
+	}
+	if db.dynamicLimit.GetLimitFilter != nil && db.dynamicLimit.ShouldContinueOnError != nil {
+		if limitFilter := db.dynamicLimit.GetLimitFilter(ctx, query.Table); limitFilter != nil &&
+			db.checkColumnValuesAgainstLimit(append(query.Where.Columns, query.Columns...), append(query.Where.Values, query.Values...), limitFilter) == nil {
+			addLimitToWhere(query.Where, limitFilter)
+		}
+	}
+
 	_, err = db.execWithTrace(ctx, query, "UpsertRow")
 	return err
+}
+
+// addLimitToWhere adds `column = value` for every limit column that where does
+// not restrict yet, in a deterministic order.
+func addLimitToWhere(where *SimpleWhere, limit Filter) {
+	columns := make([]string, 0, len(limit))
+	for column := range limit {
+		columns = append(columns, column)
+	}
+	sort.Strings(columns)
+	for _, column := range columns {
+		found := false
+		for _, c := range where.Columns {
+			if c == column {
+				found = true
+				break
+			}
+		}
+		if !found {
+			where.Columns = append(where.Columns, column)
+			where.Values = append(where.Values, limit[column])
+		}
+	}
 }
 
 // DeleteRow deletes a single row from the database, identified by the row's primary key
